@@ -37,7 +37,7 @@ var c15Readers = []string{"Node", "NodeOld", "NodeU", "unknown-id", "ReqNode", "
 // first elements are empty structs, the last one carries the rest of the nest.
 // Element count must not influence the depth accounting.
 var c15Widths = []int{2, 40, 1022, 1500}
-var c15Prefixes = []int{0, 10, 40}
+var c15Prefixes = []int{0, 1, 10, 41} // even and odd: the hop on which the budget runs out alternates between value kinds
 
 const c15Mixtures = 6
 
